@@ -71,8 +71,13 @@ def insertCell (x : Int × Int) : List (Int × Int) → List (Int × Int)
 
 def sortCells (l : List (Int × Int)) : List (Int × Int) := l.foldr insertCell []
 
+def uniqAdj : List (Int × Int) → List (Int × Int)
+  | a :: b :: rest => if a == b then uniqAdj (b :: rest) else a :: uniqAdj (b :: rest)
+  | l => l
+
+/-- a rule's cells as a SET: sorted, duplicates removed (the harness expands the sqref into a set) -/
 def showCells (l : List (Int × Int)) : String :=
-  ",".intercalate ((sortCells l).map fun c => toString c.1 ++ "." ++ toString c.2)
+  ",".intercalate ((uniqAdj (sortCells l)).map fun c => toString c.1 ++ "." ++ toString c.2)
 
 def mapM' {α β ε : Type} (f : α → Except ε β) : List α → Except ε (List β)
   | [] => .ok []
